@@ -1,5 +1,6 @@
 import EmsModel.Core.CacheKeyDataset
 import EmsModel.Core.CacheKeyMarshal
+import EmsModel.Core.CacheKeyScalars
 import EmsModel.Core.Proto
 /-! Line-protocol driver for C16 (cache key byte stream).
 
@@ -16,6 +17,10 @@ Strings travel as the hex of their UTF-8 (`-` = empty), byte strings as hex (`-`
 
 `marshal <0|1> <items>`                    → hex of the F10 quirk model `marshalStrDict` (dict shared?; items `,`-separated
                                              `ktext/i/s/id~vtext/i/s/id`, i = interned, s = shared, 0|1) | `UNSUPPORTED` (not short ASCII)
+
+`mscalar <0|1> <none|bool|int|float|buffer> <payload>` → hex of `wScalar` (round 6): what `marshal.dumps(v, 4)` writes for a scalar
+                                             attribute value; the flag = more than one reference; payload `-` (none), `0|1` (bool), a decimal
+                                             (int), the hex of the 8-byte IEEE image (float), the hex of the raw bytes (buffer) | `UNSUPPORTED`
 
 spec:  `cf:<lat|->:<lon|->`  `shoc_simple`  `arakawa:<kind>=<lat>/<lon>,…`  `ugrid:<role,role|->`
 vars:  `;`-separated, each `name:dims:c|d:valuedtype:encdtype|-:shape:data|*:count:blob:attrs`
@@ -172,6 +177,21 @@ def step (line : String) : String :=
       if !(sh == "0" || sh == "1") then "BAD"
       else if items.all (fun (k, v) => shortAscii k && shortAscii v) then showHex (marshalStrDict (sh == "1") items)
       else "UNSUPPORTED"
+    | none => "BAD"
+  | ["mscalar", ref, kind, payload] =>
+    if !(ref == "0" || ref == "1") then "BAD" else
+    let v : Option PyScalar :=
+      match kind with
+      | "none" => if payload == "-" then some .none else none
+      | "bool" => if payload == "1" then some (.bool true) else if payload == "0" then some (.bool false) else none
+      | "int" => (parseInt? payload).map .int
+      | "float" => (parseHex? payload).map .float
+      | "buffer" => (parseHex? payload).map .buffer
+      | _ => none
+    match v with
+    | some v => match wScalar (ref == "1") v with
+      | some b => showHex b
+      | none => "UNSUPPORTED"
     | none => "BAD"
   | ["inv", spec, vars] =>
     match parseSpec? spec, parseVars? vars with
